@@ -314,6 +314,11 @@ class Reader:
         except ValueError:
             # int() refuses digit strings beyond the interpreter's conversion limit
             raise dns.exception.SyntaxError("$GENERATE modifier out of range")
+        if iwidth > 2 * 65535:
+            # No name or rdata text can hold a number zero-filled to more than
+            # the hex form of the largest rdata; building (and tokenizing) such
+            # a string for every index makes a short line arbitrarily expensive.
+            raise dns.exception.SyntaxError("$GENERATE width out of range")
 
         if sign not in ["+", "-"]:
             raise dns.exception.SyntaxError(f"invalid offset sign {sign}")
